@@ -23,6 +23,9 @@ pub enum Behaviour {
     Refuse,
     /// Answer with the status after a virtual delay.
     Late(u64, u16),
+    /// Answer with the status after a virtual delay given in milliseconds (an endpoint with an
+    /// ordinary round-trip time).
+    LateMs(u64, u16),
 }
 
 impl Behaviour {
@@ -32,6 +35,7 @@ impl Behaviour {
             Behaviour::ResetAfterRequest => "reset".into(),
             Behaviour::Refuse => "refuse".into(),
             Behaviour::Late(d, s) => format!("late{}s-{}", d, s),
+            Behaviour::LateMs(d, s) => format!("late{}ms-{}", d, s),
         }
     }
     pub fn accepted(&self) -> bool {
@@ -267,6 +271,12 @@ async fn serve_conn(mut stream: TcpStream, log: Arc<Mutex<Vec<PostRec>>>, script
         }
         Behaviour::Status(code) => {
             respond(&mut stream, code).await?;
+            log.lock().unwrap()[idx].vt_answer = Some(w.vt());
+            linger(&mut stream, code).await;
+        }
+        Behaviour::LateMs(ms, code) => {
+            tokio::time::sleep(Duration::from_millis(ms)).await;
+            let _ = respond(&mut stream, code).await;
             log.lock().unwrap()[idx].vt_answer = Some(w.vt());
             linger(&mut stream, code).await;
         }
